@@ -262,6 +262,10 @@ func (m *Message) Clone() *Message {
 	return &Message{
 		Ctx:    m.Ctx,
 		Record: m.Record.Clone(),
+
+		// a filtered record stays filtered on every fan-out branch, otherwise
+		// the destinations behind a FanoutNode would write it
+		filtered: m.filtered,
 	}
 }
 
